@@ -89,6 +89,9 @@ def STATE(t):
         finally:
             ROUTES[0] = True
         return _reg(st, 'ST', [[[[int(v) for v in a[0]], int(a[1])] for a in rows], int(r)])
+    if ROUTES[0] and (len(rows) + int(r)) % 3 == 0:
+        st_ = ST.StabilizerState(GS([a[0] for a in rows]), int(r), ps=PS([a[1] for a in rows])) if (len(rows) + int(r)) % 2 == 0 else ST.StabilizerState(gs=GS([a[0] for a in rows]), ps=PS([a[1] for a in rows]), r=int(r))
+        return _reg(st_, 'ST', [[[[int(v) for v in a[0]], int(a[1])] for a in rows], int(r)])
     return _reg(ST.StabilizerState(GS([a[0] for a in rows]), ps=PS([a[1] for a in rows])).set_r(int(r)), 'ST', [[[[int(v) for v in a[0]], int(a[1])] for a in rows], int(r)])
 
 
